@@ -112,9 +112,11 @@ def run(ctx):
         xh.Cond(U, 'split_lines_fresh_native', timeout=200, path_timeout=30,
                 bound='the same law natively (functools caches live) on 36 two-character strings over {a, LF, CR, FF, space, b}',
                 realised='two character indices, keepends flag'),
-        xh.Cond('vp.harness.pipe', 'pipe_bytes', timeout=300, path_timeout=60, env={'VP_VERSIONS': '0,4,8'},
-                bound='4 byte skeletons with one symbolic ASCII byte inserted at offset 0..3, with / without UTF-8 BOM',
-                symbolic='byte value, offset, BOM flag'),
         xh.Cond(U, 'split_lines_c', timeout=120, path_timeout=30, twin='split-loses-fs'),
+    ] + [
+        xh.Cond('vp.harness.pipe', 'pipe_bytes', timeout=300, path_timeout=60, env={'VP_VERSIONS': '0,4,8'}, name='pipe.pipe_bytes/%d' % kk,
+                extra_pre=['k == %d' % kk, 'at == %d' % at], bound='byte skeleton %d, symbolic ASCII byte at offset %d, BOM flag' % (kk, at),
+                symbolic='byte value, BOM flag')
+        for kk, at in ((0, 1), (1, 2), (2, 0), (3, 0))
     ]
     xh.run_conditions(ctx, C)
